@@ -300,17 +300,42 @@ def run_shard(ctx, spec):
                 f.write(wire.enc_reply([]))
             args = [("k%d" % j, rng.choice(["", "v", "é", "a=b"])) for j in range(rng.randint(0, 3))]
             from .. import genspec
-            res = ctx.run_slicec(argv + ["-G", genspec.render(gen_path, args)], cwd=case_dir, env={"FAKEGEN_LOG": log})
+            # line-ups: the capturing generator alone, or among other generators (one that cannot be started, one that fails,
+            # one that never reads its input, a second healthy one with other arguments) - every generator must be handed the
+            # same request followed by *its own* arguments whatever happened to the ones before it
+            lineup = rng.choice(["alone", "alone", "alone", "after-missing", "after-noread", "between", "after-exit1"])
+            gspecs = [genspec.render(gen_path, args)]
+            args2 = [("z%d" % j, rng.choice(["", "w", "long-value-" * 3])) for j in range(rng.randint(0, 2))]
+            other = [("o1", "x"), ("o2", "")]
+            expect_failures = 0
+            if lineup == "after-missing":
+                gspecs = [genspec.render(os.path.join(tmp, "no-such-generator"), other)] + gspecs
+                expect_failures = 1
+            elif lineup in ("after-noread", "after-exit1", "between"):
+                beh = {"after-noread": "noreadfail", "after-exit1": "exit1", "between": "exit1"}[lineup]
+                bad = os.path.join(case_dir, "gen-%s-bad" % beh)
+                os.symlink(ctx.paths["fakegen"], bad)
+                gspecs = [genspec.render(bad, other)] + gspecs
+                expect_failures = 1
+                if lineup == "between":
+                    g2 = os.path.join(case_dir, "gen-ok-second")
+                    os.symlink(ctx.paths["fakegen"], g2)
+                    with open(os.path.join(log, "gen-ok-second.reply"), "wb") as f:
+                        f.write(wire.enc_reply([]))
+                    gspecs = [genspec.render(g2, args2)] + gspecs
+            ctx.stats["lineup_" + lineup.replace("-", "_")] += 1
+            res = ctx.run_slicec(argv + [x for g in gspecs for x in ("-G", g)], cwd=case_dir, env={"FAKEGEN_LOG": log})
             r = ctx.worker.request({"op": "compile_opts", "argv": ["slicec"] + argv, "cwd": case_dir, "want": ["ast", "codes"]})
             ctx.note_case(("c08", tuple(texts), split, tuple(order)))
-            replay = {"kind": "binary", "argv": argv + ["-G", "<capturing generator>"], "files": dict(zip(names, texts)),
-                      "observed": res.brief()}
-            captured = [x for x in os.listdir(log) if x.endswith(".stdin")]
+            replay = {"kind": "binary", "argv": argv + [x for g in gspecs for x in ("-G", g)], "files": dict(zip(names, texts)),
+                      "observed": res.brief(), "lineup": lineup}
+            captured = [x for x in os.listdir(log) if x.endswith(".stdin") and x.startswith("gen-ok-c08.")]
+            captured2 = [x for x in os.listdir(log) if x.endswith(".stdin") and x.startswith("gen-ok-second.")]
             try:
                 if "died" in r or r.get("panic") or res.crashed():
                     ctx.stats["crashed"] += 1
                     raise Mismatch("crash", "crash while producing the request: %s / %s" % (res.crashed(), r.get("panic") or r.get("died")))
-                if r.get("has_errors") or res.status != 0 or len(captured) != 1:
+                if r.get("has_errors") or res.status != (1 if expect_failures else 0) or len(captured) != 1:
                     if r.get("has_errors") and res.status != 0:
                         ctx.stats["skipped_invalid_program"] += 1
                         continue
@@ -328,6 +353,20 @@ def run_shard(ctx, spec):
                     raise Mismatch("operation-name", "operation name %r" % req["operation"])
                 if [tuple(a) for a in req["args"]] != args:
                     raise Mismatch("arguments", "arguments %r, expected %r" % (req["args"], args))
+                if lineup == "between":
+                    if len(captured2) != 1:
+                        raise Mismatch("no-request", "the second healthy generator captured %r" % (captured2,))
+                    with open(os.path.join(log, captured2[0]), "rb") as f:
+                        data2 = f.read()
+                    try:
+                        req2 = wire.decode_request(schema, data2)
+                    except wire.WireError as e:
+                        raise Mismatch("request-undecodable", "request of the second generator does not decode: %s" % e)
+                    if [tuple(a) for a in req2["args"]] != args2:
+                        raise Mismatch("arguments", "second generator: arguments %r, expected %r" % (req2["args"], args2))
+                    if data2[:req2["_end_referenceFiles"]] != data[:req["_end_referenceFiles"]]:
+                        raise Mismatch("generators-get-different-requests", "the two healthy generators received different requests")
+                    ctx.stats["second_generator_requests"] += 1
                 dumped = r["files"]
                 with_module = [f for f in dumped if f["module"] is not None]
                 want_src = [f for f in with_module if f["is_source"]]
